@@ -14,11 +14,14 @@ from __future__ import annotations
 import ast
 import base64
 import binascii
+import collections
 import contextlib
+import io
 import itertools
 import re
 import struct
 import textwrap
+import urllib.parse
 from typing import Callable, Dict, Iterable, List, Optional, Sequence, Tuple
 
 from sa.astx import dotted, src, walk_local
@@ -102,12 +105,33 @@ _FORBIDDEN_CODECS = {"imap4-utf-7", "imap4_utf_7", "xtext"}
 STDLIB = {"re.compile": re.compile, "re.escape": re.escape, "re.sub": re.sub, "re.subn": re.subn, "re.match": re.match, "re.search": re.search,
           "re.fullmatch": re.fullmatch, "re.split": re.split, "re.findall": re.findall,
           "struct.pack": struct.pack, "struct.unpack": struct.unpack, "struct.calcsize": struct.calcsize, "struct.Struct": struct.Struct,
-          "textwrap.wrap": textwrap.wrap, "binascii.b2a_base64": binascii.b2a_base64, "binascii.a2b_base64": binascii.a2b_base64,
+          "textwrap.wrap": textwrap.wrap, "textwrap.fill": textwrap.fill, "textwrap.TextWrapper": textwrap.TextWrapper,
+          "urllib.parse.quote": urllib.parse.quote, "urllib.parse.unquote": urllib.parse.unquote, "urllib.parse.unquote_to_bytes": urllib.parse.unquote_to_bytes,
+          "urllib.parse.quote_from_bytes": urllib.parse.quote_from_bytes, "collections.deque": collections.deque, "io.BytesIO": io.BytesIO,
+          "binascii.b2a_base64": binascii.b2a_base64, "binascii.a2b_base64": binascii.a2b_base64,
           "base64.b64encode": base64.b64encode, "base64.b64decode": base64.b64decode}
 _RE_FLAGS = {"re." + n: getattr(re, n) for n in ("I", "IGNORECASE", "M", "MULTILINE", "S", "DOTALL", "X", "VERBOSE", "A", "ASCII")}
 _OBJECT_METHODS = {re.Pattern: {"sub", "subn", "match", "search", "fullmatch", "split", "findall"},
                    re.Match: {"group", "groups", "start", "end", "span", "groupdict"},
-                   struct.Struct: {"pack", "unpack", "unpack_from"}}
+                   struct.Struct: {"pack", "unpack", "unpack_from"},
+                   textwrap.TextWrapper: {"wrap", "fill"},
+                   io.BytesIO: {"write", "getvalue", "tell"},
+                   list: {"append", "extend"},            # local work-lists of the evaluated block (e.g. `parts.append` handed on as a write sink)
+                   bytearray: {"append", "extend"},
+                   collections.deque: {"append", "appendleft", "pop", "popleft", "extend", "clear", "copy", "index", "count"}}
+
+
+def import_env(mod) -> Dict[str, object]:
+    """Names a module binds by importing whitelisted stdlib callables (``from urllib.parse import unquote_to_bytes``,
+    ``from collections import deque as dq``): name -> the CPython callable.  Anything not in STDLIB stays unbound."""
+    out: Dict[str, object] = {}
+    for st in ast.walk(mod.tree):
+        if isinstance(st, ast.ImportFrom) and st.module and st.level == 0:
+            for a in st.names:
+                full = f"{st.module}.{a.name}"
+                if full in STDLIB:
+                    out[a.asname or a.name] = STDLIB[full]
+    return out
 
 
 def peval(node: ast.AST, env: Optional[Dict[str, object]] = None, funcs: Optional[Dict[str, Callable]] = None):
@@ -135,6 +159,13 @@ def peval(node: ast.AST, env: Optional[Dict[str, object]] = None, funcs: Optiona
             return _RE_FLAGS[d]
         if d is not None and d in STDLIB and d not in funcs:
             return STDLIB[d]
+        try:
+            base0 = peval(node.value, env, funcs) if isinstance(node.value, (ast.Name, ast.Attribute)) else None
+        except NotPure:
+            base0 = None
+        for typ, allowed in _OBJECT_METHODS.items():
+            if isinstance(base0, typ) and node.attr in allowed:
+                return getattr(base0, node.attr)
         if node.attr in ("size", "pattern", "flags"):
             try:
                 base = peval(node.value, env, funcs)
@@ -272,7 +303,7 @@ def peval(node: ast.AST, env: Optional[Dict[str, object]] = None, funcs: Optiona
                 return _guard(lambda: getattr(recv0, node.func.attr)(*args))
         if isinstance(node.func, ast.Attribute) and node.func.attr == "pop" and not kw:
             recv = ev(node.func.value)
-            if isinstance(recv, list):     # local work-list of the evaluated block (the only impure operation modelled)
+            if isinstance(recv, (list, collections.deque)) and not (isinstance(recv, collections.deque) and args):     # local work-list of the evaluated block
                 return _guard(lambda: recv.pop(*args))
         if fn is None and not isinstance(node.func, ast.Attribute):
             target = ev(node.func)
@@ -390,8 +421,9 @@ def _comp(node, env, funcs):
 
 
 def module_env(mod, funcs=None, names: Optional[Iterable[str]] = None) -> Dict[str, object]:
-    """Module-level constants evaluable with peval, in order (later ones may use earlier ones)."""
-    env: Dict[str, object] = {}
+    """Module-level constants evaluable with peval, in order (later ones may use earlier ones); whitelisted stdlib
+    callables imported by name are bound too."""
+    env: Dict[str, object] = import_env(mod)
     stack = list(mod.tree.body)
     while stack:
         st = stack.pop(0)
@@ -413,6 +445,41 @@ def module_env(mod, funcs=None, names: Optional[Iterable[str]] = None) -> Dict[s
         except (NotPure, Raised):
             continue
     return env
+
+
+class FollowModule(dict):
+    """``funcs`` mapping that, besides the explicit models it is created with, resolves any other module-level function of
+    ``mod`` by interpreting its AST (``interp``): the evaluator follows calls to sibling helpers instead of refusing them."""
+
+    def __init__(self, mod, models=None, env0=None):
+        super().__init__(models or {})
+        self._mod = mod
+        self._env0 = env0 if env0 is not None else {}
+        self._busy = set()
+
+    def _func(self, name):
+        if not isinstance(name, str) or "." in name:
+            return None
+        for st in self._mod.tree.body:
+            if isinstance(st, ast.FunctionDef) and st.name == name and not st.decorator_list:
+                return st
+        return None
+
+    def __contains__(self, name):
+        return dict.__contains__(self, name) or self._func(name) is not None
+
+    def __getitem__(self, name):
+        if dict.__contains__(self, name):
+            return dict.__getitem__(self, name)
+        f = self._func(name)
+        if f is None:
+            raise KeyError(name)
+        fn = interp(f, self, self._env0)
+        dict.__setitem__(self, name, fn)
+        return fn
+
+    def get(self, name, default=None):
+        return self[name] if name in self else default
 
 
 def class_env(classes, env: Dict[str, object], funcs=None, prefix: str = "self.") -> Dict[str, object]:
@@ -512,10 +579,10 @@ def eval_block(stmts: Sequence[ast.stmt], env: Dict[str, object], sink: Callable
             name = dotted(call.func) or src(call.func)
             if kind:
                 _emit(res, kind, _pe(call.args[0], env, funcs))
-            elif isinstance(call.func, ast.Attribute) and call.func.attr in ("append", "extend", "pop", "clear") and not call.keywords \
+            elif isinstance(call.func, ast.Attribute) and call.func.attr in ("append", "extend", "pop", "clear", "appendleft", "popleft") and not call.keywords \
                     and name not in record and name not in ignore and _is_local_list(call.func.value, env, funcs):
                 recv = _pe(call.func.value, env, funcs)
-                if not isinstance(recv, (list, bytearray)):
+                if not isinstance(recv, (list, bytearray, collections.deque)):
                     raise AnalysisError("block evaluation: unsupported call statement " + src(st))
                 args = [_pe(a, env, funcs) for a in call.args]
                 try:
@@ -650,7 +717,7 @@ def _emit(res, kind, v):
 
 def _is_local_list(expr, env, funcs) -> bool:
     try:
-        return isinstance(peval(expr, env, funcs), (list, bytearray))
+        return isinstance(peval(expr, env, funcs), (list, bytearray, collections.deque))
     except NotPure:
         return False
     except Raised:
